@@ -133,14 +133,16 @@ def to_events(g, tp):
             if tok and tok[0] == "go":
                 ev.append({"e": "TGo", "start": d["a"], "movetime": g["movetime"], "time": g["time"], "buffer": g["buffer"],
                            "ponder": "ponder" in tok, "slack": slack, "txt": f"{g['root']} | {d['txt']} | BufferTime {g['buffer']} Threads {g['threads']} Ponder {g['ponder_opt']} MaxNPS {g['maxnps']} LimitStrength {g['limit_strength']}"})
-            elif tok and tok[0] == "stop":
-                ev.append({"e": "TStop", "vt": d["vt"]})
-            elif tok and tok[0] == "ponderhit":
-                ev.append({"e": "TPonderHit", "vt": d["vt"]})
+        # 'stop' and 'ponderhit' count from the moment the engine has stored them in the search's limits (events StopSet / LimitsPH,
+        # emitted right after the store): the time between reading the command and that store belongs to the protocol thread and
+        # to the OS scheduler, not to the polling of the search (seen once under load 50: 29 virtual ms from the command, slack 25)
+        elif e == "StopSet":
+            ev.append({"e": "TStop", "vt": d["vt"]})
         elif e == "Limits":
             ev.append({"e": "TLimits", "min": d["a"], "max": d["b"], "afterHit": False, "oneMove": g["one"]})
         elif e == "LimitsPH":
             ev.append({"e": "TLimits", "min": d["a"], "max": d["b"], "afterHit": True, "oneMove": g["one"]})
+            ev.append({"e": "TPonderHit", "vt": d["vt"]})
         elif e == "Best":
             ev.append({"e": "TBest", "vt": d["vt"]})
     return ev
